@@ -344,11 +344,17 @@ class Ctx:
         self.log(f"violation [{kind}] {what}")
 
     def _match_known(self, signature):
-        try:
-            kf = json.load(open(os.path.join(VERIF, "known_findings.json")))
-        except FileNotFoundError:
-            return None
-        for e in kf.get("findings", []):
+        entries = []
+        # known_findings.json is generated (tools/mkmanifest.py) from props/*/findings.json; both are
+        # committed and neither is written at run time.  Reading the per-property file as well makes a
+        # freshly recorded finding effective before the union file is regenerated.
+        for path in (os.path.join(VERIF, "known_findings.json"),
+                     os.path.join(VERIF, "props", self.prop, "findings.json")):
+            try:
+                entries += json.load(open(path)).get("findings", [])
+            except (FileNotFoundError, ValueError):
+                pass
+        for e in entries:
             if e.get("property") != self.prop or e.get("status") != "known":
                 continue
             m = e.get("match") or {}
